@@ -90,6 +90,7 @@ def c19(tier, rng, seed):
     r = three_way('C19', 'q19', P.sentence_field_cases(rng, tier), {'C19'}, 'sentence-fields')
     merge(r, three_way('C19', 'q19', P.message_type_cases(rng, tier), {'C19'}, 'first-byte x length x fill x shape'))
     merge(r, swept_three_way('C19', 'q19', P.message_type_sweeps(rng, tier), {'C19'}, 'first-byte-sweeps'))
+    merge(r, three_way('C19', 'q19', P.line_length_cases(rng, tier), {'C19'}, 'line-lengths'))
     ex = explored('hist', tier)
     if ex: merge(r, three_way('C19', 'q19', ex, {'C19'}, 'explored-hist'))
     return r
@@ -116,6 +117,7 @@ def c17(tier, rng, seed):
     transparent_pool = [gen.sentence(b'15M', 0), gen.sentence(b'15M', 0, cs=b'00'), b'garbage', b'', gen.sentence(b'000', 0),
                         gen.sentence(b'9', 0, 3, 3, 9), gen.sentence(b'9', 0, 2, 0, 1), gen.sentence(b'9', 0, 2, 2, 8),
                         gen.sentence(b'15M', 9), b'!AIVDM,2,1,1,A,15M,0', gen.sentence(b'15M', 0, n=256)]
+    transparent_pool += [gen.undecodable_sentence(rng, k) for k in (0, 0, 0, 0, 1, 2, 3)]
     bases = []
     import itertools
     depth = 3 if tier == 'quick' else 4
@@ -138,6 +140,11 @@ def c17(tier, rng, seed):
                         gen.sentence(pay, fill, sid=4), gen.sentence(pay, fill, addr=b'AIVDO')])
         h = [b] + P.random_history(rng, rng.choice([0, 2]))
         bases.append(h); twins[id(h)] = a
+    # a sentence whose payload does not decode (unarmoring stops half-way, no decoder, too short) in front of
+    # ordinary decoded traffic: whatever the failed attempt touched must not show in the next message
+    for _ in range(P.scale(tier, 200, 2000)):
+        h = [gen.valid_sentence(rng)] + P.random_history(rng, rng.choice([0, 0, 2]))
+        bases.append(h); twins[id(h)] = gen.undecodable_sentence(rng, rng.choice([0, 0, 0, 1, 2, 3]))
     # long runs of transparent lines between two fragments (anything that counts lines to age a group out): one
     # more such line must change nothing
     for K in (1, 2, 7, 8, 9, 15, 16, 17, 31, 32, 33, 63, 64, 65, 127, 128, 129, 254, 255, 256):
@@ -341,6 +348,30 @@ def c20(tier, rng, seed):
             return 'check failed: %r' % e
     with ThreadPoolExecutor(max_workers=c.NCPU) as ex:
         res = list(ex.map(one, range(len(streams))))
+    # "no line content affects the handling of any other line", on the tool alone: the stream without the lines
+    # that were rejected (as the library linked into the harness classifies them) must give the same records on
+    # standard output, byte for byte (a rejected line leaves no trace: C17's theorems, Proofs/TransmitCli.v)
+    def without_rejected(i):
+        if res[i] or ho[i].strip() == 'X': return None
+        lines = streams[i].split(b'\n')
+        if lines and lines[-1] == b'': lines.pop()
+        items = ho[i].split(' ')[1:]
+        if len(items) != len(lines) or not any(it[0] == 'e' for it in items) or not any(it[0] == 'o' for it in items): return None
+        kept = b''.join(l + b'\n' for l, it in zip(lines, items) if it[0] != 'e')
+        try:
+            rc1, out1, _ = run_cli(exe, streams[i]); rc2, out2, _ = run_cli(exe, kept)
+        except subprocess.TimeoutExpired:
+            return 'the tool did not terminate within 120 s'
+        if out1 != out2:
+            a, b = out1.split(b'\n'), out2.split(b'\n')
+            k = next((j for j in range(min(len(a), len(b))) if a[j] != b[j]), min(len(a), len(b)))
+            return 'with the rejected lines removed from the stream, stdout record %d changes: %r / %r' % (k, (a + [b''])[k][:300], (b + [b''])[k][:300])
+        return False
+    with ThreadPoolExecutor(max_workers=c.NCPU) as ex:
+        res2 = list(ex.map(without_rejected, range(len(streams))))
+    n_meta = sum(1 for r in res2 if r is not None)
+    for i, r in enumerate(res2):
+        if r: res[i] = r
     for i, r in enumerate(res):
         n_lines += streams[i].count(b'\n') + 1
         if b'!' in streams[i]: nt.add(cases[i])
@@ -349,7 +380,8 @@ def c20(tier, rng, seed):
                          'diffs': [['cli', r, '']], 'proj': 0})
     return {'violations': viol, 'evaluations': len(streams), 'nontrivial': nt,
             'batches': {'cli-streams': {'cases': len(streams), 'input_lines': n_lines, 'builds': ['aisparser binary (std/debug)'],
-                                        'lines_where_library_and_model_classify_differently': len(CLASS_NOTES)}},
+                                        'lines_where_library_and_model_classify_differently': len(CLASS_NOTES),
+                                        'streams_rerun_without_their_rejected_lines': n_meta}},
             'samples': [{'batch': 'cli-streams', 'case': cases[min(7, len(cases) - 1)][:300]}]}
 
 def replay_c20(rp):
@@ -358,6 +390,13 @@ def replay_c20(rp):
     stream = bytes.fromhex(case[2:]) if case[2:] != '-' else b''
     mo = c.run_model([case], 'std', 'asis'); ho = c.run_impl([case], 'std', 'debug')
     r = cli_check_one(exe, stream, case, mo[0], ho[0])
+    if not r and ho[0].strip() != 'X':
+        lines = stream.split(b'\n')
+        if lines and lines[-1] == b'': lines.pop()
+        items = ho[0].split(' ')[1:]
+        if len(items) == len(lines):
+            kept = b''.join(l + b'\n' for l, it in zip(lines, items) if it[0] != 'e')
+            if run_cli(exe, stream)[1] != run_cli(exe, kept)[1]: r = 'stdout differs when the rejected lines are removed from the stream'
     print(r or 'behaves as the model says')
     if r: print('VIOLATION property=C20 replay=(this file)'); return 1
     return 0
